@@ -96,6 +96,7 @@ type c5node struct {
 	// hook bookkeeping: message -> calls
 	hookCalls map[string]int
 	nHooks    int // hook functions registered by this node (each fires once per accepted entry)
+	hookWho   map[string]int // per message: bit i set when the i-th hook of the registration fired
 	// lazy-with nodes: how often their deferred fields were marshaled
 	lazyMarsh int
 	underLazy bool // some ancestor is a lazy-with node (whose first use derives, and thereby evaluates, this one)
@@ -378,9 +379,11 @@ func (w *c5world) build(n *c5node, frag int) zapcore.Core {
 		// one to three hooks registered in one call; a failing one comes first:
 		// the ones after it fire all the same
 		nn.nHooks = 1 + n.id%3
-		hooks := []func(zapcore.Entry) error{func(e zapcore.Entry) error { nn.hookCalls[e.Message]++; return hookErr }}
+		nn.hookWho = map[string]int{}
+		hooks := []func(zapcore.Entry) error{func(e zapcore.Entry) error { nn.hookCalls[e.Message]++; nn.hookWho[e.Message] |= 1; return hookErr }}
 		for len(hooks) < nn.nHooks {
-			hooks = append(hooks, func(e zapcore.Entry) error { nn.hookCalls[e.Message]++; return nil })
+			bit := 1 << len(hooks)
+			hooks = append(hooks, func(e zapcore.Entry) error { nn.hookCalls[e.Message]++; nn.hookWho[e.Message] |= bit; return nil })
 		}
 		n.core = zapcore.RegisterHooks(child, hooks...)
 	case c5Sampler:
@@ -844,6 +847,9 @@ func runC05(c *Ctx) {
 					continue
 				}
 				c.Fail(sig, "%s level %d: hook node %d fired although nothing below it received the entry; atomics %v; tree %s", op.msg, l, h.id, vals, w.describe(root))
+				return false
+			case n == h.nHooks && h.hookWho != nil && h.hookWho[op.msg] != 1<<h.nHooks-1:
+				c.Fail("C05: a hook did not fire for an entry its wrapped core accepted", "%s: the %d hooks of node %d fired %d times in all, but not each of them once (fired: bit set %b)", op.msg, h.nHooks, h.id, n, h.hookWho[op.msg])
 				return false
 			case n < h.nHooks && hookMust[h.id]:
 				c.Fail("C05: a hook did not fire for an entry its wrapped core accepted", "%s level %d: the %d hooks of node %d fired %d times; tree %s", op.msg, l, h.nHooks, h.id, n, w.describe(root))
